@@ -4,9 +4,9 @@ P=$1; N=$2; W=/tmp/mut-$P; lower=$(echo $P | tr 'A-Z' 'a-z')
 cd $W || exit 2
 demo=$(ls tests/demo_*.rs 2>/dev/null | head -1); name=$(basename $demo .rs)
 CARGO_TARGET_DIR=$W/target cargo test --offline --test $name > /tmp/confirm-$P-with.log 2>&1; with=$?
-git stash -q
+git diff -- src > /tmp/confirm-$P.patch; git checkout -- src
 CARGO_TARGET_DIR=$W/target cargo test --offline --test $name > /tmp/confirm-$P-without.log 2>&1; without=$?
-git stash pop -q
+git apply /tmp/confirm-$P.patch
 echo "$P: demo with patch exit=$with (expect != 0); without patch exit=$without (expect 0)"
 grep "test result" /tmp/confirm-$P-with.log | tail -1; grep "test result" /tmp/confirm-$P-without.log | tail -1
 base=$(python3 /tmp/baseline_cmp.py $W/target/nextest/pb/junit.xml 2>/dev/null | head -1); echo "agent's suite run: $base"
